@@ -23,10 +23,10 @@ from xsim import core, procs  # noqa: E402
 
 # property -> configuration of its check
 CONF = {
-    "C16": dict(module="xsim.eng_c16", stub=False, kind="shards",
+    "C16": dict(module="xsim.eng_c16", stub=False, kind="shards", vary_hashseed=True,
                 runs={"quick": 4000, "thorough": 100000},
                 wall={"quick": 150, "thorough": 2400}),
-    "C18": dict(module="xsim.eng_c18", stub=True, kind="shards",
+    "C18": dict(module="xsim.eng_c18", stub=True, kind="shards", vary_hashseed=True,
                 runs={"quick": 6000, "thorough": 150000},
                 wall={"quick": 170, "thorough": 1800}),
     "C06": dict(module="xsim.eng_c06", stub=False, kind="shards", shadow_hashseed=0,
@@ -152,7 +152,7 @@ def history_replay(prop, mod, fp, v, seed, nshards, runs, tier):
     Returns (path, note) or None."""
     shard = v["i"] % nshards
     meta = {"seed": seed, "run_index": v["i"], "seed_i": v["seed_i"], "detail": v.get("detail"),
-            "needs_history": True}
+            "needs_history": True, "hashseed": (shard if CONF[prop].get("vary_hashseed") else 0)}
     pspec = {"shard_prefix": {"seed": seed, "shard": shard, "nshards": nshards, "runs": runs, "tier": tier,
                               "upto": v["i"]}}
     ppath = core.write_replay(prop, fp, pspec, meta)
@@ -253,6 +253,9 @@ def run_shard_check(prop, tier, seed, nshards=None, runs=None, wall=None,
 
     total = nshards + (1 if shadow else 0)
 
+    def shard_hashseed(i):
+        return i if conf.get("vary_hashseed") else 0
+
     def argv_for(i):
         if i < nshards:
             return ["worker", prop, "--tier", tier, "--seed", str(seed), "--shard", str(i),
@@ -263,7 +266,12 @@ def run_shard_check(prop, tier, seed, nshards=None, runs=None, wall=None,
     def env_for(i):
         # shadow worker: other shard layout; other hash seed too where the engine's
         # executions do not depend on it (dask graph construction does)
-        return procs.worker_env(hashseed=0 if i < nshards else conf.get("shadow_hashseed", 1),
+        # engines whose executions do not depend on the string-hash seed (history machines) run shard i under
+        # PYTHONHASHSEED=i: free diversity, and a history that only misbehaves under some seeds is reachable; the
+        # replay file records the seed
+        if i < nshards:
+            return procs.worker_env(hashseed=shard_hashseed(i), with_stub=conf["stub"])
+        return procs.worker_env(hashseed=conf.get("shadow_hashseed", 101 if conf.get("vary_hashseed") else 1),
                                 with_stub=conf["stub"])
 
     problems = procs.run_shards(argv_for, total, env_for, on_msg, wall_limit=wall * 0.8 + 150)
@@ -295,6 +303,7 @@ def run_shard_check(prop, tier, seed, nshards=None, runs=None, wall=None,
         v = vs[0]
         path = core.write_replay(prop, fp, v["spec"],
                                  {"seed": seed, "run_index": v["i"], "seed_i": v["seed_i"],
+                                  "hashseed": shard_hashseed(v["i"] % nshards),
                                   "detail": v.get("detail"), "occurrences_in_batch": len(vs),
                                   "minimisation_steps": v.get("min_steps"),
                                   "decisions": v.get("decisions")})
